@@ -124,6 +124,7 @@ type Interp struct {
 	nameCount       map[string]int
 	ctxCanceled     Value
 	bgCtx           *ctxObj
+	freeWakes       int
 	lastNow         *Term
 	fnSeen          map[string]bool
 }
